@@ -199,10 +199,19 @@ class TFLiteSubgraph:
                     op.attrs["out_data_type"] = outputs[0].dtype
 
             if "stride_w" in op.attrs:
+                if op.attrs["stride_w"] < 1 or op.attrs["stride_h"] < 1:
+                    op.error(
+                        f"Stride values must be at least 1 (w = {op.attrs['stride_w']}, h = {op.attrs['stride_h']})"
+                    )
                 op.attrs["strides"] = (1, op.attrs["stride_h"], op.attrs["stride_w"], 1)
             if "filter_width" in op.attrs:
                 op.attrs["ksize"] = (1, op.attrs["filter_height"], op.attrs["filter_width"], 1)
             if "dilation_w_factor" in op.attrs:
+                if op.attrs["dilation_w_factor"] < 1 or op.attrs["dilation_h_factor"] < 1:
+                    op.error(
+                        "Dilation factors must be at least 1"
+                        f" (w = {op.attrs['dilation_w_factor']}, h = {op.attrs['dilation_h_factor']})"
+                    )
                 op.attrs["dilation"] = (1, op.attrs["dilation_h_factor"], op.attrs["dilation_w_factor"], 1)
             if "depth_multiplier" in op.attrs:
                 op.attrs["channel_multiplier"] = op.attrs["depth_multiplier"]
